@@ -44,14 +44,15 @@
 (***************************************************************************)
 EXTENDS Integers, Sequences, FiniteSets, TLC
 
-CONSTANTS ToFixedSetsStatic, CounterIsStatic, TypeIdByFirstUse, AddressInOutput, ObjectHashIsAddress, ExtBufferIsStatic, DefinesPersist
+CONSTANTS ToFixedSetsStatic, CounterIsStatic, TypeIdByFirstUse, AddressInOutput, ObjectHashIsAddress, ExtBufferIsStatic, DefinesPersist,
+          WarnLatchIsStatic      \* deviation: a diagnostic is reported once per process instead of whenever an instance earns it
 
 Names == {"P", "Q"}
 Kinds == {"create", "print", "evalprint", "tofixed", "fixedprint", "fmtfixed", "counter", "define", "usedef", "defuse",
-          "setg", "readg", "loadcfg", "readcfg", "typeorder", "collstr", "objstr", "objmap", "extecho", "extquiet"}
+          "setg", "readg", "loadcfg", "readcfg", "typeorder", "collstr", "objstr", "objmap", "extecho", "extquiet", "warn", "fmtwarn"}
 
 Fresh == [alive |-> FALSE, dec |-> -1, ctr |-> 0, defs |-> 0, glob |-> 0, cfg |-> 0, types |-> <<>>, objs |-> 0, ops |-> 0]
-NewWorld(base) == [inst |-> [i \in Names |-> Fresh], decimals |-> -1, ppCounter |-> 0, typeIds |-> <<>>, heap |-> base, alloc |-> 0, extbuf |-> ""]
+NewWorld(base) == [inst |-> [i \in Names |-> Fresh], decimals |-> -1, ppCounter |-> 0, typeIds |-> <<>>, heap |-> base, alloc |-> 0, extbuf |-> "", warned |-> FALSE]
 
 \* the types an operator set mentions, in registration order: 1 = full, 2 = basic (no group/object operators)
 OpsTypes(ops) == IF ops = 1 THEN <<"CONFIG", "GROUP", "SCALAR", "HASHMAP">> ELSE <<"CONFIG", "SCALAR", "HASHMAP">>
@@ -110,6 +111,12 @@ Apply(w, who, s) ==
              out |-> <<IF ObjectHashIsAddress THEN "objmap by address " \o ToString(w.heap + w.alloc) ELSE "objmap o3,o2,o1">>]
       \* callExtension of a stateless extension: an answered call, and one the extension leaves unanswered
       [] s.k = "extecho" -> [w |-> IF ExtBufferIsStatic THEN [w EXCEPT !.extbuf = "v" \o ToString(s.n)] ELSE w, out |-> <<"ext v" \o ToString(s.n)>>]
+      \* an operation that earns a diagnostic (the clipboard is not available): every instance reports it, every time
+      [] s.k = "warn" -> [w |-> IF WarnLatchIsStatic THEN [w EXCEPT !.warned = TRUE] ELSE w,
+                          out |-> IF WarnLatchIsStatic /\ w.warned THEN <<>> ELSE <<"warn clipboard">>]
+      \* format with a placeholder that has no argument: a warning is delivered half-way, the text is finished afterwards;
+      \* a pure function of its operands (the scheduling point inside it exists in the driver's per-instruction schedules only)
+      [] s.k = "fmtwarn" -> [w |-> w, out |-> <<"warn format", "fmt text">>]
       [] s.k = "extquiet" -> [w |-> w, out |-> <<"ext " \o (IF ExtBufferIsStatic THEN w.extbuf ELSE "")>>]
 
 Enabled(w, who, s) == IF s.k = "create" THEN ~w.inst[who].alive ELSE w.inst[who].alive
